@@ -4,6 +4,8 @@ import (
 	"fmt"
 	"go/ast"
 	"go/token"
+	"go/types"
+	"sort"
 	"strings"
 )
 
@@ -321,6 +323,84 @@ func genShape(repo string) (*leanFile, error) {
 	lf.pf("/-- the setup acknowledgement is delivered with the dynamic type NewChannel asserts -/\n")
 	lf.pf("def headerOnlyTypeMatches : Bool := %v\n", hoPtr && asserts)
 
+
+	// which functions of the package mention the receive-side / transmit-side state of a Channel
+	// (fields of the struct type Channel, resolved through the type checker): the duplex model
+	// (Model/Chan.lean) runs the two sides as independent components
+	touchedBy := func(fields ...string) []string {
+		want := map[string]bool{}
+		for _, f := range fields {
+			want[f] = true
+		}
+		seen := map[string]bool{}
+		for _, f := range p.files {
+			for _, d := range f.Decls {
+				fd, ok := d.(*ast.FuncDecl)
+				if !ok || fd.Body == nil {
+					continue
+				}
+				name := fd.Name.Name
+				if fd.Recv != nil && len(fd.Recv.List) == 1 {
+					name = strings.TrimPrefix(exprStr(fd.Recv.List[0].Type), "*") + "." + name
+				}
+				ast.Inspect(fd.Body, func(n ast.Node) bool {
+					switch x := n.(type) {
+					case *ast.SelectorExpr:
+						if obj, ok := p.info.Uses[x.Sel].(*types.Var); ok && obj.IsField() && want[obj.Name()] {
+							if tv, ok := p.info.Types[x.X]; ok && strings.HasSuffix(strings.TrimPrefix(tv.Type.String(), "*"), "tds.Channel") {
+								seen[name] = true
+							}
+						}
+					case *ast.KeyValueExpr: // composite literal &Channel{queueRx: …}
+						if id, ok := x.Key.(*ast.Ident); ok {
+							if obj, ok := p.info.Uses[id].(*types.Var); ok && obj.IsField() && want[obj.Name()] {
+								seen[name] = true
+							}
+						}
+					}
+					return true
+				})
+			}
+		}
+		var out []string
+		for n := range seen {
+			out = append(out, n)
+		}
+		sort.Strings(out)
+		return out
+	}
+	leanStrs := func(l []string) string {
+		q := make([]string, len(l))
+		for i, x := range l {
+			q[i] = fmt.Sprintf("%q", x)
+		}
+		return "[" + strings.Join(q, ", ") + "]"
+	}
+	lf.pf("/-- the functions that mention the receive-side state of a channel (`queueRx`, `lastPkgRx`) -/\n")
+	lf.pf("def rxStateTouchedBy : List String := %s\n", leanStrs(touchedBy("queueRx", "lastPkgRx")))
+	lf.pf("/-- the functions that mention the transmit-side state of a channel (`queueTx`, `lastPkgTx`, `curPacketNr`, `CurrentHeaderType`) -/\n")
+	lf.pf("def txStateTouchedBy : List String := %s\n", leanStrs(touchedBy("queueTx", "lastPkgTx", "curPacketNr", "CurrentHeaderType")))
+	// callers of the exported setter of lastPkgRx inside the library
+	var setters []string
+	for _, f := range p.files {
+		for _, d := range f.Decls {
+			fd, ok := d.(*ast.FuncDecl)
+			if !ok || fd.Body == nil {
+				continue
+			}
+			ast.Inspect(fd.Body, func(n ast.Node) bool {
+				if c, ok := n.(*ast.CallExpr); ok {
+					if se, ok := c.Fun.(*ast.SelectorExpr); ok && se.Sel.Name == "SetLastPkgRx" {
+						setters = append(setters, fd.Name.Name)
+					}
+				}
+				return true
+			})
+		}
+	}
+	sort.Strings(setters)
+	lf.pf("/-- callers of `SetLastPkgRx` inside package tds -/\n")
+	lf.pf("def setLastPkgRxCallers : List String := %s\n", leanStrs(setters))
 	lf.pf("\nend Dblib.Gen.Shape\n")
 	return lf, nil
 }
